@@ -190,7 +190,14 @@ def int_of_text(I, v, base):
     if not isinstance(v, Seq) or base != 16:
         raise Unsupported('int() of %r base %r' % (v, base))
     if v.items is None:
-        raise Unsupported('int(text, 16) of symbolic-length text')
+        # a short slice of a symbolic-length buffer (buffer[1:3]): case split on its actual length
+        nz = zint(v.n)
+        if not I.st.provable(z3.And(nz >= 0, nz <= 8)):
+            raise Unsupported('int(text, 16) of symbolic-length text')
+        for k in range(0, 9):
+            if I.st.decide(nz == k):
+                v = Seq('bytes', None, items=[v.at(j) for j in range(k)])
+                break
     if not v.items:
         raise Raised('ValueError')
     hv = [hexval(zint(c)) for c in v.items]
@@ -1205,7 +1212,8 @@ def _a2b(I, args, kw):
     k = z3.Int(st.fresh_name('q'))
     allhex = z3.ForAll([k], z3.Implies(z3.And(k >= 0, k < n), hexval(s.zat(k)) >= 0))
     if not st.decide(allhex): raise Raised('binascii.Error')
-    return Seq('bytes', n / 2, at=lambda j, s=s: mk(hexval(s.zat(mk(zint(j) * 2))) * 16 + hexval(s.zat(mk(zint(j) * 2 + 1)))))
+    from . import lang as _L
+    return Seq('bytes', n / 2, at=lambda j, s=s: _L.hexval(s.at(mk(zint(j) * 2))) * 16 + _L.hexval(s.at(mk(zint(j) * 2 + 1))))
 EXT['binascii.unhexlify'] = _a2b
 
 
